@@ -110,17 +110,8 @@ func runAccSchedule(cfg qCfg, r *rand.Rand) *qRun {
 	}
 	for steps := 0; steps < 2000; steps++ {
 		var en []string
-		for name, lab := range at {
-			if lab == "K_wait" {
-				all := true
-				for _, p := range cfg.Producers {
-					all = all && finished[p]
-				}
-				if !all {
-					continue
-				}
-			}
-			en = append(en, name)
+		for name := range at {
+			en = append(en, name) // the closer is enabled like everybody else: Close may fall between the steps of a Send
 		}
 		sort.Strings(en)
 		if len(en) == 0 {
